@@ -18,7 +18,7 @@ CHECKS["C14"] = dict(CHECKS["C13"], pkg="props/c14",
         "Oracle: after every operation the status (granted / failed / still waiting) of every allocation ever requested equals that of a reference model written from the statement: grant at once iff the peer has no waiter and both limits fit; otherwise wait; on release grant the earliest-requested head-of-peer waiter that fits its own peer's limit iff it fits the total, repeat; releasePeer fails the peer's waiters before returning."))
 
 NOT_APPLICABLE = {}
-HOOK_COMMITS = []
+HOOK_COMMITS = ["197be81"]
 
 _T = "property-based testing (pgregory.net/rapid)"
 CHECKS["C13"].update(
@@ -88,3 +88,21 @@ CHECKS["C11"] = dict(
     level_text="Round-trip property over generated well-formed messages and streams; equality written against public accessors only.",
     level_note="Trusts the 100-line equality in msggen and go-msgio framing.",
     technique="rapid round-trip property testing", design_ref="DESIGN.md §6 C11")
+
+CHECKS["C18"] = dict(
+    pkg="props/c18", level="exploration", gomaxprocs=2,
+    rule="sequences of 1-40 operations {subscribe, unsubscribe-all, publish, close-topic, shutdown, sync} over 3 topics x 3 recording subscribers against a started publisher inside a synctest bubble (Wait() at every sync point, so the asynchronous command loop has drained before comparison). Oracle: reference model of subscriptions: per (subscriber, topic) the exact ordered sequence of events published while subscribed, exactly one OnClose when the subscription ends (close, unsubscribe or shutdown), nothing afterwards; Subscribe/Unsubscribe return false after shutdown; duplicate subscribe is idempotent. Non-trivial: >= 2 subscribers on one topic and a later unsubscribe/close that ends one of them.",
+    assumptions=["the publisher is started before use and no subscriber calls back into the publisher (as every caller in go-graphsync does)"],
+    quick=dict(shards=2, timeout=300), thorough=dict(shards=16, timeout=3000),
+    level_text="Stateful model-based testing of the publisher with exact quiescence; 40k sequences per quick run.",
+    level_note="Trusts the 40-line subscription model.",
+    technique="rapid stateful model-based testing in a synctest bubble", design_ref="DESIGN.md §5 C18")
+
+CHECKS["C19"] = dict(
+    pkg="props/c19", level="exploration", gomaxprocs=2,
+    rule="sequences of 1-50 operations over 4 request ids x 6 links for one peer: open (optional dedup key from {k1,k2}, ignore list, skip count, applied in prepareQuery's order), traverse(request, link, present|missing), finish / finish-with-error / clear; driven against the real ResponseAssembler (streams + Transaction, message built with the real messagequeue.Builder) and, for the default scope, the bare LinkTracker. Oracle (model: per scope, link -> number of in-progress present traversals): block transmitted iff present AND index > skip AND nobody in the scope (ignore lists included) has it in progress; BlockData index/size-on-wire agree; FinishRequest is complete-full iff that request recorded no missing link (status on the wire too); whenever every request has finished, TrackingEmpty(peer) (verif hook) and LinkTracker.Empty() hold and a later request is sent every block again. Request ids are reused after finishing. Non-trivial: two overlapping requests in one scope share a link and one finishes while the other continues.",
+    assumptions=["extensions are applied before any traversal, as prepareQuery does", "a request id is not reused while that request is live"],
+    quick=dict(shards=2, timeout=300), thorough=dict(shards=16, timeout=3000),
+    level_text="Stateful model-based testing of link tracking through the real assembler; 20k sequences per quick run.",
+    level_note="Trusts the 50-line model; internal emptiness is observed through one add-only verif-tagged accessor.",
+    technique="rapid stateful model-based testing", design_ref="DESIGN.md §5 C19")
